@@ -125,3 +125,51 @@ func exerciseLite(c *hx.Case, body *hclsyntax.Body, srcLen int, evaluate bool) {
 		}
 	}
 }
+
+// errorFreeUTF8Config: the precondition of C09 / C10 ("every configuration that parses
+// without errors"), restricted to well-formed UTF-8 (ill-formed input is accepted in
+// places, which is a known finding of C14 / C15 and not the subject here).
+func errorFreeUTF8Config(src []byte) bool {
+	if hugeExponent.Match(src) || !utf8.Valid(src) {
+		return false
+	}
+	_, diags := hclsyntax.ParseConfig(src, "t.hcl", hcl.InitialPos)
+	return !diags.HasErrors()
+}
+
+func FuzzRawC09_Format(f *testing.F) {
+	hx.FuzzBytes(f, "C09", "Format", hclSeeds, func(c *hx.Case, src []byte) {
+		if !errorFreeUTF8Config(src) {
+			return
+		}
+		c.SetBytes("source", src)
+		checkFormat(c, src, &hcl.EvalContext{Functions: ctyFuncs})
+	})
+}
+
+func FuzzRawC10_RoundTrip(f *testing.F) {
+	hx.FuzzBytes(f, "C10", "RoundTrip", hclSeeds, func(c *hx.Case, src []byte) {
+		if !errorFreeUTF8Config(src) {
+			return
+		}
+		c.SetBytes("source", src)
+		var wf *hclwrite.File
+		var diags hcl.Diagnostics
+		c.Guard("hclwrite.ParseConfig", func() { wf, diags = hclwrite.ParseConfig(src, "t.hcl", hcl.InitialPos) })
+		if diags.HasErrors() || wf == nil {
+			c.Failf("writer-parse-error", "hclwrite.ParseConfig reports: %s", diagStr(diags))
+		}
+		var out []byte
+		c.Guard("File.Bytes", func() { out = wf.Bytes() })
+		inToks, _ := lexConfigToks(src)
+		outToks, _ := lexConfigToks(out)
+		if i := firstTokDiff(inToks, outToks); i >= 0 {
+			c.Failf("token-sequence", "token %d differs: source %s, Bytes() %s", i, tokAt(inToks, i), tokAt(outToks, i))
+		}
+		var formatted []byte
+		c.Guard("Format", func() { formatted = hclwrite.Format(src) })
+		if !bytes.Equal(formatted, out) {
+			c.Failf("bytes-vs-format", "File.Bytes() differs from Format(source)")
+		}
+	})
+}
